@@ -1,0 +1,32 @@
+//go:build verif
+
+package exthttp
+
+// Contracts for the deductive verifier in /verif (comment-only file; see /verif/DESIGN.md).
+
+//@ type withHTTPCode invariant self.cause != nil
+//@ method (*withHTTPCode).Error
+//@   props C10
+//@   ensures result == msg(self.cause)
+//@ method (*withHTTPCode).Cause
+//@   props C07 C10 C14
+//@   ensures result == self.cause
+//@ method (*withHTTPCode).Unwrap
+//@   props C07 C10 C14
+//@   ensures result == self.cause
+
+//@ func WrapWithHTTPCode
+//@   props C10 C07
+//@   ensures err == nil ==> result == nil
+//@   ensures err != nil ==> typeis(result, *withHTTPCode) && result.(*withHTTPCode).cause == err && result.(*withHTTPCode).code == code
+
+//@ func encodeWithHTTPCode
+//@   props C01 C11
+//@   requires typeis(err, *withHTTPCode)
+//@   ensures result0 == "" && len(result1) == 1
+//@   ensures typeis(result2, *EncodedHTTPCode) && result2.(*EncodedHTTPCode).Code == err.(*withHTTPCode).code
+
+//@ func decodeWithHTTPCode
+//@   props C05 C01 C11
+//@   requires cause != nil
+//@   ensures typeis(payload, *EncodedHTTPCode) ==> typeis(result, *withHTTPCode) && result.(*withHTTPCode).cause == cause && result.(*withHTTPCode).code == payload.(*EncodedHTTPCode).Code
